@@ -1,31 +1,39 @@
-(* Re-checked on every run against _random_number_to_data REGENERATED from /repo's data_generator.py:
-   the generated function equals the hand-written model rn2data of Model/C14_DataGen.v, over any OF. *)
+(* Re-checked on every run against _random_number_to_data REGENERATED from /repo's data_generator.py by gen/py2coq.py:
+   the generated function equals the hand-written model rn2data of Model/C14_DataGen.v (the code as repaired by
+   fixes/C14-rn2data-fallback-zero-probability), over any ordered field; the validity theorem is transported to the
+   regenerated function.  On the unrepaired source (fallback `return len(probdist) - 1`) this file does NOT compile:
+   the tie is reported broken and the sub-checks rn2data / fallback supply the failing input. *)
 From Coq Require Import ZArith List Bool Lia.
 From QV.Core Require Import OF.
 From QV.Model Require Import C14_DataGen.
+From QV.Proofs Require Import C14_DataGen.
 From QVGen Require Import Gen_random_number.
 Import ListNotations.
 
 Section Equiv.
 Context (F : OF).
 
-Definition gstep (r : F) : F * option Z -> Z * F -> F * option Z :=
-  fun '(cumulative_sum, ret_) '(index, prob) =>
+(* one iteration of the generated loop; state = (cumulative_sum, last_positive, early return value) *)
+Definition gstep (r : F) : F * Z * option Z -> Z * F -> F * Z * option Z :=
+  fun '(cumulative_sum, last_positive, ret_) '(index, prob) =>
     match ret_ with
-    | Some _ => (cumulative_sum, ret_)
+    | Some _ => (cumulative_sum, last_positive, ret_)
     | None => let cumulative_sum := cadd F cumulative_sum prob in
-              if negb (kleb F cumulative_sum r) then (cumulative_sum, Some index) else (cumulative_sum, ret_)
+              if negb (kleb F cumulative_sum r) then (cumulative_sum, last_positive, Some index)
+              else let last_positive := if negb (kleb F prob (c0 F)) then index else last_positive in
+                   (cumulative_sum, last_positive, ret_)
     end.
+Definition fin (st : F * Z * option Z) : Z :=
+  match st with (_, lp, Some v) => v | (_, lp, None) => lp end.
 
-Lemma gstep_some r l : forall c v, snd (fold_left (gstep r) l (c, Some v)) = Some v.
-Proof. induction l as [|[i p] l IH]; intros c v; cbn; [reflexivity|apply IH]. Qed.
+Lemma gstep_some r l : forall c lp v, fin (fold_left (gstep r) l (c, lp, Some v)) = v.
+Proof. induction l as [|[i p] l IH]; intros c lp v; cbn; [reflexivity|apply IH]. Qed.
 
-Lemma gfold r ps : forall s c,
-  snd (fold_left (gstep r) (combine (map Z.of_nat (seq s (length ps))) ps) (c, None)) =
-  option_map Z.of_nat (rn2d_go F ps c r s).
-Proof. induction ps as [|p ps IH]; intros s c; cbn [length seq map combine fold_left rn2d_go]; [reflexivity|].
+Lemma gfold r ps : forall s c lp,
+  fin (fold_left (gstep r) (combine (map Z.of_nat (seq s (length ps))) ps) (c, lp, None)) = rn2d_r F (cadd F) ps c r s lp.
+Proof. induction ps as [|p ps IH]; intros s c lp; cbn [length seq map combine fold_left rn2d_r]; [reflexivity|].
   unfold gstep at 2. unfold flt. destruct (negb (kleb F (cadd F c p) r)) eqn:E.
-  - rewrite gstep_some. reflexivity.
+  - apply gstep_some.
   - apply IH. Qed.
 
 Lemma fold_left_ext2 {A B} (f g : A -> B -> A) : (forall a b, f a b = g a b) ->
@@ -33,10 +41,17 @@ Lemma fold_left_ext2 {A B} (f g : A -> B -> A) : (forall a b, f a b = g a b) ->
 Proof. intros H l. induction l as [|x l IH]; intros i; cbn; [reflexivity|]. now rewrite H, IH. Qed.
 
 Theorem gen_random_number_to_data_eq : forall ps r, gen_random_number_to_data F ps r = rn2data F ps r.
-Proof. intros ps r. unfold gen_random_number_to_data, rn2data.
-  erewrite (fold_left_ext2 _ (gstep r)) by (intros [c o] [i p]; reflexivity).
-  pose proof (gfold r ps 0%nat (c0 F)) as H.
-  destruct (fold_left (gstep r) _ _) as [c o]. cbn [snd] in H. rewrite H.
-  destruct (rn2d_go F ps (c0 F) r 0); reflexivity. Qed.
+Proof. intros ps r. rewrite <- rn2data_r_exact_add. unfold gen_random_number_to_data, rn2data_r.
+  erewrite (fold_left_ext2 _ (gstep r)) by (intros [[c lp] o] [i p]; reflexivity).
+  pose proof (gfold r ps 0%nat (c0 F) (Z.of_nat (length ps) - 1)%Z) as H.
+  destruct (fold_left (gstep r) _ _) as [[c lp] o]. cbn [fin] in H. rewrite <- H.
+  destruct o; reflexivity. Qed.
+
+(* the property, about the function regenerated from the Python text: for every r >= 0 and every vector with a positive
+   entry the returned outcome is in range and has positive probability *)
+Theorem gen_random_number_to_data_valid : forall ps r, kle F (c0 F) r -> has_pos F ps ->
+  exists n : nat, gen_random_number_to_data F ps r = Z.of_nat n /\ (n < length ps)%nat /\ klt F (c0 F) (nth n ps (c0 F)).
+Proof. intros ps r Hr Hp. rewrite gen_random_number_to_data_eq. exact (rn2data_valid F ps r Hr Hp). Qed.
 End Equiv.
 Print Assumptions gen_random_number_to_data_eq.
+Print Assumptions gen_random_number_to_data_valid.
